@@ -419,6 +419,40 @@ def check_oracle(ctx, t, form, body, produce=None):
 
 
 # --------------------------------------------------------------------------------------------------
+MY_TAGS = ("unclosed_no_escape", "unclosed_empty_aggregate_no_end_tag")
+
+
+def replay_findings(ctx):
+    """replay the witness of every recorded finding of this layer (whatever property it is filed under) on the
+    implementation; a `fixed` one that the oracle still rejects is reported as a violation (it matches no `known`
+    entry), a `known` one that now passes is noted"""
+    import json
+    import os
+    p = os.path.join(os.path.dirname(os.path.dirname(os.path.dirname(os.path.abspath(__file__)))), "known_findings.json")
+    try:
+        with open(p) as f:
+            entries = json.load(f)["findings"]
+    except Exception:
+        return
+    seen = set()
+    for e in entries:
+        w = e.get("witness") or {}
+        if e.get("tag") not in MY_TAGS or w.get("op") != "form" or (e.get("id"), e.get("status")) in seen:
+            continue
+        seen.add((e.get("id"), e.get("status")))
+        t, form = from_json(w["tree"]), tuple(w["form"])
+        r = run_impl(impl_form, t, form)
+        ctx.evaluations += 1
+        v = oracle(t, form, r[1]) if r[0] == "ok" else ("serialize_raises", str(r[1]))
+        ctx.stat(f"finding:{e.get('id')}:{e.get('status')}:{'rejected' if v else 'passes'}")
+        if v is not None:
+            ctx.violate(v[0], {"op": "form", "tree": to_json(t), "form": list(form)},
+                        f"witness of {e.get('id')} ({e.get('status')}): {v[1]}; written as {r[1]!r}",
+                        {"form": form[0], "pretty": form[1]})
+        elif e.get("status") == "known":
+            ctx.notes.append(f"known finding {e.get('id')}: its witness now passes (candidate for status fixed)")
+
+
 def _b(rep):
     if rep.kind == "ok":
         return ["ok", dbytes(rep.vals[0]).hex()]
@@ -464,6 +498,9 @@ def run(ctx):
         wild += small
         ctx.exhaustive.append("all trees with <= 2 nodes (and a stratified third node) over tags {A, br, Script} x "
                               "texts {None,'',blank,'x&<'} x tails {None,'\\n','t>'}: html, indent, unclosed")
+
+    # ---------------- witnesses of recorded findings (known: still failing is expected; fixed: must pass) -------
+    replay_findings(ctx)
 
     # ---------------- per-function correspondence ----------------
     lines, meta = [], []
